@@ -405,7 +405,7 @@ def shards(tier, seed):
     n_h = 4 if tier == 'quick' else 16
     for k in range(n_h):
         out.append(dict(kind='hyp', seed=seed * 1000 + k,
-                        n=3000 if tier == 'quick' else 40000))
+                        n=3000 if tier == 'quick' else 200000))
     out.append(dict(kind='purity'))
     out.append(dict(kind='numpy', ops=BINOPS[:6]))
     out.append(dict(kind='numpy', ops=BINOPS[6:] + UNOPS))
